@@ -1,12 +1,13 @@
 #!/bin/sh
-# runs every check's thorough tier in turn; prints one summary line per check (used through `vp run`)
+# all_thorough.sh [ids...]: runs the thorough tier of the given checks (default: all 31) in turn; one summary line per check
+# (used through `vp run`)
 cd "$(dirname "$0")/.."
-for i in $(seq -w 1 31); do
-  c="C$i"
+ids="$*"
+[ -z "$ids" ] && ids=$(for i in $(seq -w 1 31); do echo "C$i"; done)
+for c in $ids; do
   start=$(date +%s)
   out=$(./check $c --tier thorough 2>&1 | grep -v "Still waiting")
-  rc=$?
   echo "$out" | grep "VIOLATION\|HARNESS\|key=" | cut -c1-300
   echo "$out" | tail -1 | cut -c1-260
-  echo "== $c exit=$(echo "$out" | grep -c '^VIOLATION') viol-lines, $(( $(date +%s) - start )) s"
+  echo "== $c $(echo "$out" | grep -c '^VIOLATION') viol-lines, $(echo "$out" | grep -c '^HARNESS') harness-errors, $(( $(date +%s) - start )) s"
 done
